@@ -228,6 +228,16 @@ def rule_ratio_paths(ctx):
             ing = ingredients(fn, e)
             if "self.sigma" in ing or any(x.startswith("?") for x in ing):
                 continue
+            # a value obtained from another method of the model (`self.squared_singular_values()`) is not a constant
+            helpers = [x[5:] for x in ing if x.startswith("call:")]
+            via = False
+            for h in helpers:
+                for g in F.all_fns():
+                    if g["d"]["krate"] == "linfa_reduction" and g["d"]["name"] == h and (g["d"].get("self_adt") or "").endswith("Pca") and g is not fn:
+                        if any(y.get("k") == "Field" and y["name"] == "sigma" for y in walk(g["body"])):
+                            via = True
+            if via:
+                continue
             exact = False
             for cnd, pol in guards[-1:]:
                 c0 = strip(cnd)
